@@ -219,6 +219,9 @@ func (m *model) verify(home string, when string) error {
 			if f.dontCare {
 				continue
 			}
+			if name == m.cur {
+				return fmt.Errorf("%s: the log file %s for the logger's id, object name and the date of the last cycle does not exist", when, name)
+			}
 			day, dated := m.datedOwn(name)
 			why := "not a dated file with the logger's own prefix " + strconv.Quote(m.id+"-")
 			if f.isDir {
@@ -619,7 +622,7 @@ func drawHist(t *rapid.T) HistCase {
 var specHist = pbt.Register(pbt.Spec[HistCase]{
 	Prop: "C17", Name: "logger-histories",
 	Rule: "histories of 3-45 actions on a logger without background goroutine in a fresh temp home under a virtual clock: log over all 12 logging methods (ids/10-byte message prefixes from 5-element alphabets), advance (ms, days, to midnight +-, configured interval +-), cycle, ApplyConfig(level, interval, keep-days, rotation; keys may be absent), SetLevel, plant (own dated files of any age incl. keep-days boundary, own-prefix files whose date part is not a date, undated own files, foreign look-alikes, directories); oracle = file-system + rate-limiter model checked after every cycle and at the end; non-trivial = at least one date rotation and one retention pass (rotation on, keep-days >= 1) that removes at least one file and keeps at least one file besides the current log file; distinct by action list",
-	Quick: 400, Thorough: 16000,
+	Quick: 3000, Thorough: 120000,
 	Draw: drawHist,
 	Run:  runHist,
 })
